@@ -356,7 +356,7 @@ theorem Ctx.D_peek (c : Ctx) (W : c.Wf) (p : Nat) (h : p < c.last) :
   Dl_peek c.e c.a W.hu p c.last h W.hl
 
 /-- `findIf` finds the first unit with `pred` -/
-theorem findIf_spec (a : Array Nat) (first last : Nat) (pred : Nat → Bool) (hl : last ≤ a.size) :
+theorem findIf_specV (a : Array Nat) (first last : Nat) (pred : Nat → Bool) (hl : last ≤ a.size) :
     ∀ n p, first ≤ p → p + n ≤ last →
       (findIf a first last pred n p).sat (fun q => p ≤ q ∧ q ≤ p + n ∧
         (∀ i, p ≤ i → i < q → pred a[i]! = false) ∧ (q < p + n → pred a[q]! = true)) := by
